@@ -37,6 +37,11 @@ impl MetricLogWriter for DefaultMetricLogWriter {
             return Ok(());
         }
         if time_sec > self.latest_op_sec {
+            // roll first, so that the index entry of this second lands in the index of the file
+            // that will hold its lines
+            if self.is_new_day(self.latest_op_sec, time_sec) {
+                self.roll_to_next_file(ts)?;
+            }
             let pos = self
                 .cur_metric_file
                 .as_ref()
@@ -45,9 +50,6 @@ impl MetricLogWriter for DefaultMetricLogWriter {
                 .unwrap()
                 .seek(SeekFrom::Current(0))?;
             self.write_index(time_sec, pos)?;
-            if self.is_new_day(self.latest_op_sec, time_sec) {
-                self.roll_to_next_file(ts)?;
-            }
         }
         // Write and flush
         self.write_items_and_flush(items)?;
